@@ -240,3 +240,14 @@ Proof.
   exact (unified_rotation_h_keeps_ctrace_b h lvl top H v entries headers names_cb exits todo isback latch sexit bv fresh true).
 Qed.
 Print Assumptions C06_unified_rotation_any_level_ctrl_safe_b.
+
+(* the comparison "equal up to the order of the node list" made per call keeps the walkable decision lists *)
+From V Require Import Model.HierEquiv Model.LoopHierApplic.
+Theorem C06_compared_hierarchies_have_the_same_walkable_lists :
+  forall a b top,
+    xhier_eqb a b = true -> flat_okb a top true = true ->
+    forall n e ds,
+      (exists bn p, find a n = Some bn /\ n_kind bn = KOrig p) ->
+      (CTrace a (resolve_flat a) true n e ds <-> CTrace b (resolve_flat b) true n e ds).
+Proof. intros a b top. exact (compared_equal_same_ctrace a b top true). Qed.
+Print Assumptions C06_compared_hierarchies_have_the_same_walkable_lists.
